@@ -108,6 +108,7 @@ func Load(o LoadOpts) (*Ctx, error) {
 	}
 	var log []string
 	var prev *Ctx
+	unembedded := false
 	for round := 1; ; round++ {
 		c, err := loadOnce(o)
 		if err != nil {
@@ -121,7 +122,7 @@ func Load(o LoadOpts) (*Ctx, error) {
 			return nil, err
 		}
 		c.InlineLog = log
-		if o.NoInline || round > 4 {
+		if o.NoInline || round > 6 {
 			return c, nil
 		}
 		add, l, err := normaliseNewHelpers(c.Fset, c.AllPkgs, o.Overlay, round)
@@ -131,6 +132,18 @@ func Load(o LoadOpts) (*Ctx, error) {
 		}
 		log = append(log, l...)
 		c.InlineLog = log
+		if len(add) == 0 && !unembedded {
+			// no helper left to inline: flatten new grouping structs, once
+			unembedded = true
+			var ul []string
+			add, ul, err = unembedNewStructs(c.Fset, c.AllPkgs, o.Overlay)
+			if err != nil {
+				c.InlineLog = append(log, "flattening failed: "+err.Error())
+				return c, nil
+			}
+			log = append(log, ul...)
+			c.InlineLog = log
+		}
 		if len(add) == 0 {
 			return c, nil
 		}
